@@ -698,29 +698,34 @@ def run_a15_a16(chk, repo):
     A15 = chk.rule('A15', 'dosing(): inside a loop over the CMT values, _dosing() gets the records filtered on that CMT value',
                    floor=2)
     am = repo.module('pharmpy.model.external.nonmem.advan')
-    f = am.functions.get('dosing')
-    if f is None:
+    if am.functions.get('dosing') is None:
         raise AnalysisError('advan.dosing not found')
-    cfg = CFG(f.node)
+    dn = getattr(am.functions.get('_dosing'), 'name', '_dosing')       # present name of the helper that decides the dose kind
     n15 = 0
-    for L in [x for x in ast.walk(f.node) if isinstance(x, ast.For) and isinstance(x.target, ast.Name)
-              and "'CMT'" in unparse(x.iter)]:
-        lv = L.target.id
-        for c in [x for x in ast.walk(L) if isinstance(x, ast.Call) and dotted(x.func) == '_dosing' and len(x.args) >= 2]:
-            n15 += 1
-            at = reach.node_containing(cfg, c)
-            data = reach.expand_expr(cfg, at, c.args[1]) if at is not None else c.args[1]
-            # a comparison `<frame>['CMT'] == <loop value>` somewhere in the (expanded) subset expression
-            ok = any(isinstance(t, ast.Compare) and len(t.ops) == 1 and isinstance(t.ops[0], ast.Eq)
-                     and "'CMT'" in unparse(t.left) + unparse(t.comparators[0])
-                     and lv in {x.id for x in ast.walk(t) if isinstance(x, ast.Name)} for t in ast.walk(data))
-            chk.instance(A15, f'dosing: `{unparse(c)[:70]}` in the loop over CMT values sees only that compartment\'s records: {ok}')
-            if not ok:
-                chk.violation(A15, am.rel, f.name, unparse(c)[:100],
-                              'the dose kind (bolus, infusion with data RATE, modelled rate Rn / duration Dn) of a compartment is '
-                              'decided from the records of all compartments', line=c.lineno,
-                              witness='an oral bolus into CMT 1 and an infusion (RATE>0) into CMT 2: the depot is read as '
-                                      'Infusion(AMT, rate=RATE)')
+    # the loops over the CMT values may sit in dosing() itself or in a helper / generator it hands over to
+    for f in list(dict.values(am.functions)):
+        loops15 = [x for x in ast.walk(f.node) if isinstance(x, ast.For) and isinstance(x.target, ast.Name)
+                   and "'CMT'" in unparse(x.iter)]
+        if not loops15:
+            continue
+        cfg = CFG(f.node)
+        for L in loops15:
+            lv = L.target.id
+            for c in [x for x in ast.walk(L) if isinstance(x, ast.Call) and dotted(x.func) == dn and len(x.args) >= 2]:
+                n15 += 1
+                at = reach.node_containing(cfg, c)
+                data = reach.expand_expr(cfg, at, c.args[1]) if at is not None else c.args[1]
+                # a comparison `<frame>['CMT'] == <loop value>` somewhere in the (expanded) subset expression
+                ok = any(isinstance(t, ast.Compare) and len(t.ops) == 1 and isinstance(t.ops[0], ast.Eq)
+                         and "'CMT'" in unparse(t.left) + unparse(t.comparators[0])
+                         and lv in {x.id for x in ast.walk(t) if isinstance(x, ast.Name)} for t in ast.walk(data))
+                chk.instance(A15, f'{f.name}: `{unparse(c)[:70]}` in the loop over CMT values sees only that compartment\'s records: {ok}')
+                if not ok:
+                    chk.violation(A15, am.rel, f.name, unparse(c)[:100],
+                                  'the dose kind (bolus, infusion with data RATE, modelled rate Rn / duration Dn) of a compartment is '
+                                  'decided from the records of all compartments', line=c.lineno,
+                                  witness='an oral bolus into CMT 1 and an infusion (RATE>0) into CMT 2: the depot is read as '
+                                          'Infusion(AMT, rate=RATE)')
     if n15 == 0:
         raise AnalysisError('A15: no _dosing call inside a loop over the CMT values found')
     A16 = chk.rule('A16', 'parse_statements: for a $DES model A(i) / A_0(i) are bound to the i-th compartment of the $MODEL '
@@ -749,7 +754,12 @@ def run_a15_a16(chk, repo):
                 if nm in seen:
                     continue
                 seen.add(nm)
-                for _d, v in (reach.values(gcfg, nd.id, nm) or []):
+                vals = reach.values(gcfg, nd.id, nm)
+                if not vals:
+                    # defined under an earlier `if des:` only (possibly unbound on the other path): all its definitions
+                    vals = [(None, a_.value) for a_ in ast.walk(g.node) if isinstance(a_, ast.Assign)
+                            and any(isinstance(t_, ast.Name) and t_.id == nm for t_ in a_.targets)]
+                for _d, v in vals:
                     txt += ' ' + unparse(v)
                     todo += [x.id for x in ast.walk(v) if isinstance(x, ast.Name)]
             from_model = "'MODEL'" in txt and 'compartments' in txt
@@ -787,7 +797,8 @@ def run_a17(chk, A17, repo):
     f = am.functions.get('_find_rates')
     if f is None:
         raise AnalysisError('_find_rates not found')
-    ncp = next((p for p in f.params if 'ncomp' in p), None)
+    # the number of compartments (output included) is the second parameter, whatever it is called
+    ncp = next((p for p in f.params if 'ncomp' in p), None) or (f.params[1] if len(f.params) >= 2 else None)
     if ncp is None:
         raise AnalysisError('A17: parameter with the number of compartments not found in _find_rates')
     guards_ = [I for I in ast.walk(f.node) if isinstance(I, ast.If) and I.body and all(isinstance(s_, ast.Continue) for s_ in I.body)
